@@ -25,9 +25,11 @@ EXPLANATION = (
     'Decides structural clauses of C17.  R1: the precedence ladder is re-derived from Parser (delegation chain, node class built per level, '
     'ladder level each operand is parsed on) and, for every operand the AstPrinter emits, every (parent kind, child kind) pair that needs '
     'parentheses to keep its grouping gets them (guard of the parenthesising helper evaluated with the folded precedence_level table), or the '
-    'child is a ParenthesizedNode that the printer writes out; precedence_level orders the node kinds like the ladder.  R2: for every '
-    'representative character, the text AstPrinter writes for a single-line string lexes as one string token and decodes back to the '
-    'character (escape_trans vs the string token regex and ESCAPE_SEQUENCE_SINGLE_RE).  R3: apply_changes splices in descending '
+    'child is a ParenthesizedNode that the printer writes out; precedence_level orders the node kinds like the ladder.  R2 (constant table + '
+    'regex language, no string is run through a function body): the characters the body class of the string/fstring token excludes are keys of the '
+    'folded escape_trans; each table image between the constant delimiters is in the token language, is exactly one non-extensible match of '
+    'ESCAPE_SEQUENCE_SINGLE_RE whose unicode_escape denotation is the key; the first-character set of the escape regex is {backslash}.  '
+    'R3: apply_changes splices in descending '
     '(lineno, colno) order, with start/end = line_table[lineno-1]+colno against a line table that uses the line terminators the lexer counts, '
     'and replaces exactly raw[start:end].  R4: a node is recorded as modified/to-sort only where its argument list is changed, once, and only '
     'Array/Function nodes; sorting permutes only the StringNode arguments; every removal and candidate choice passes affects_no_other_targets.  '
@@ -36,7 +38,9 @@ EXPLANATION = (
 ASSUMPTIONS = ['str.translate, str.splitlines, str.split and codecs unicode_escape behave as documented in the Python library reference',
                'BaseNode.accept dispatches to visit_<ClassName> of the visitor (checked as an anchor)',
                '+ on int/str/list/dict, * on int, and/or are associative in the Meson language (Syntax.md); a+(b-c) == (a+b)-c on integers']
-TECHNIQUE = 'parser ladder re-derivation + folded precedence table + guard evaluation over all kind pairs; regex-language/escape tables; CFG dominance and path conditions on the rewriter'
+TECHNIQUE = ('ladder re-derived from the parser by delegation chain; precedence_level as a decision table; parenthesising guards decided over the declared '
+             'node-kind domain; folded escape table against regex-language facts (body class, token language, first-character set); CFG dominance / '
+             'guard edges, path enumeration with copy propagation and normalised linear expression comparison, reaching definitions')
 
 
 # ---------------------------------------------------------------------------
@@ -274,10 +278,36 @@ def _translate_table(ctx: RuleCtx, pmod: Module, e: ast.AST, arg: str, depth: in
     raise Undecided(f'string value is transformed by {short(e)}')
 
 
+def _negated_classes(items: T.Any) -> T.List[T.Any]:
+    """Negated character classes anywhere in a parsed regex."""
+    c = rx.sre_c
+    out: T.List[T.Any] = []
+    for op, av in items:
+        if op is c.IN:
+            if any(o is c.NEGATE for o, _ in av):
+                out.append(av)
+        elif op is c.NOT_LITERAL:       # [^x] is stored as NOT_LITERAL x
+            out.append([(c.NEGATE, None), (c.LITERAL, av)])
+        elif op is c.BRANCH:
+            for br in av[1]:
+                out += _negated_classes(br)
+        elif op is c.SUBPATTERN:
+            out += _negated_classes(av[3])
+        elif op in (c.MAX_REPEAT, c.MIN_REPEAT):
+            out += _negated_classes(av[2])
+    return out
+
+
 def r2(ctx: RuleCtx) -> None:
+    """Constant-table + regex-language argument (no string is pushed through a function body):
+    (1) the characters the body class of the string token excludes are keys of the folded escape table;
+    (2) each table image, between the constant delimiters, is in the language of the string / fstring token;
+    (3) each image is exactly one escape sequence of ESCAPE_SEQUENCE_SINGLE_RE, cannot be extended by a following
+        character, and its unicode_escape denotation (folded on the constant) is the key;
+    (4) every alternative of the escape regex starts with a backslash, so characters that are not keys (hence not the
+        backslash) can never start an escape sequence and are read back unchanged."""
     pmod = ctx.repo.module(PRINTER)
     mmod = ctx.repo.module(MPARSER)
-    # parser side: the idioms the decoding model stands on
     esc = fold_const(ctx.repo, mmod, 'ESCAPE_SEQUENCE_SINGLE_RE')
     if not isinstance(esc, Regex):
         raise Undecided('ESCAPE_SEQUENCE_SINGLE_RE is not a compiled regex')
@@ -290,69 +320,77 @@ def r2(ctx: RuleCtx) -> None:
     if not (len(sesc.body) == 1 and isinstance(sesc.body[0], ast.Return)
             and norm(sesc.body[0].value) == 'ESCAPE_SEQUENCE_SINGLE_RE.sub(decode_match, self.raw_value)'):
         raise Undecided('StringNode.escape is not ESCAPE_SEQUENCE_SINGLE_RE.sub(decode_match, self.raw_value)')
-    try:
-        esc_re = re.compile(esc.pattern, esc.flags)
-    except re.error as e:
-        raise Undecided(f'ESCAPE_SEQUENCE_SINGLE_RE does not compile: {e}')
-
-    def decode(text: str) -> str:
-        return esc_re.sub(lambda m: codecs.decode(m.group(0).encode(), 'unicode_escape'), text)
-
-    pre, post, table, construct = _string_emission(ctx, pmod)
-    tokens = {'': token_regex(ctx, mmod, 'string'), 'f': token_regex(ctx, mmod, 'fstring')}
-    nfas = {p: rx.build(r.pattern, r.flags) for p, r in tokens.items()}
-    strip = {'': (1, 1), 'f': (2, 1)}   # what Lexer.lex removes around the body (checked below)
     lex = mmod.func('Lexer.lex')
     if "value[2 if tid == 'fstring' else 1:-1]" not in norm(lex):
         raise Undecided('Lexer.lex does not strip the quotes with value[2 if tid == "fstring" else 1:-1]')
 
-    def trans(c: str) -> str:
-        if table is None or ord(c) not in table:
-            return c
-        v = table[ord(c)]
-        if isinstance(v, int):
-            return chr(v)
-        if v is None:
-            return ''
-        if isinstance(v, str):
-            return v
-        raise Undecided(f'translate table value {v!r}')
+    pre, post, table, construct = _string_emission(ctx, pmod)
+    where = 'AstPrinter' if table is not None else 'AstPrinter.visit_StringNode'
+    images: T.Dict[str, str] = {}
+    for k, v in (table or {}).items():
+        if not isinstance(v, str):
+            raise Undecided(f'escape table value {v!r} is not a string')
+        images[chr(k)] = v
+    ctx.note(f'single-line strings are written as {pre!r} + translate(value) + {post!r}; table = ' + (repr(images) if table is not None else 'identity'))
+    tokens = {'': token_regex(ctx, mmod, 'string'), 'f': token_regex(ctx, mmod, 'fstring')}
+    nfas = {p: rx.build(r.pattern, r.flags) for p, r in tokens.items()}
 
-    universe = sorted(set(rx.BASE_SAMPLES) | set('nrtabfvNxuU0127{}') | ({chr(k) for k in table} if table else set()))
-    ctx.floor('representative characters', len(universe), 40)
-    ctx.note(f'single-line strings are written as {pre!r} + translate(value) + {post!r}; table = '
-             + (repr({chr(k): v for k, v in table.items()}) if table is not None else 'identity'))
+    # delimiters: the empty literal is a token, and the lexer strips what the printer adds
+    ctx.require(len(pre) == 1 and len(post) == 1 and all(_nfa_full(n, p + pre + post) for p, n in nfas.items()),
+                f'delimiters {pre!r} ... {post!r} form a string / fstring token', pmod, 'AstPrinter.visit_StringNode', 'string delimiters',
+                f'the printer wraps a single-line string in {pre!r} ... {post!r}; that is not a string token of the lexer / not what Lexer.lex strips', construct)
 
-    def roundtrip(value: str) -> T.Optional[str]:
-        body = ''.join(trans(c) for c in value)
-        for prefix, nfa in nfas.items():
-            text = prefix + pre + body + post
-            if not _nfa_full(nfa, text):
-                return f'{text!r} does not lex as one {"f" if prefix else ""}string token ({tokens[prefix].pattern!r})'
-            a, b = strip[prefix]
-            got = decode(text[a:len(text) - b])
-            if got != value:
-                return f'{text!r} is read back as the value {got!r}'
-        return None
+    # (1) excluded characters of the body class must be escaped
+    n_excl = 0
+    for prefix, r in tokens.items():
+        neg = _negated_classes(rx.parse(r.pattern, r.flags))
+        if len(neg) != 1:
+            raise Undecided(f'{"f" if prefix else ""}string token regex has {len(neg)} negated classes (expected the body class)')
+        universe = set(rx.alphabet(r.pattern)) | set(images)
+        excluded = sorted(universe - rx.class_chars(neg[0], universe))
+        ctx.floor(f'characters excluded by the body class of the {"f" if prefix else ""}string token', len(excluded), 2)
+        for c in excluded:
+            n_excl += 1
+            ctx.require(c in images, f'{"f" if prefix else ""}string token: excluded character {c!r} is a key of the escape table', pmod, where,
+                        f'{c!r} is not in the escape table',
+                        f'the body class of the token regex {r.pattern!r} excludes {c!r}, but the printer writes it unescaped: a value containing {c!r} '
+                        f'(printed {pre + c + post!r}) does not lex as one string token', construct)
 
-    for c in universe:
-        problem = roundtrip(c)
-        if problem is None:
-            problem = roundtrip('a' + c + 'b')
-        key = f'escape_trans[{c!r}] = {trans(c)!r}' if table is not None and ord(c) in table else f'{c!r} is not in the escape table'
-        ctx.require(problem is None, f'character {c!r} -> {trans(c)!r} survives print + lex + decode', pmod, 'AstPrinter.visit_StringNode' if table is None else 'AstPrinter',
-                    key, f'a string value containing {c!r} is printed as {trans(c)!r}: {problem}', construct)
-    # context: two neighbouring characters must not form an escape sequence that neither of them is
-    crit = sorted(set("\\'nNxuU0{}a") | ({chr(k) for k in table} if table else set()))
-    bad = []
-    for c1 in crit:
-        for c2 in crit:
-            if roundtrip(c1) is None and roundtrip(c2) is None:
-                pr = roundtrip(c1 + c2)
-                if pr is not None:
-                    bad.append((c1 + c2, pr))
-    ctx.require(not bad, f'{len(crit) ** 2} two-character values survive print + lex + decode', pmod, 'AstPrinter', 'escape_trans (pairs)',
-                f'the value {bad[0][0]!r} does not survive: {bad[0][1]}' if bad else '', construct)
+    # (4) escapes start with a backslash only
+    enfa = rx.build(esc.pattern, esc.flags)
+    ealpha = set(rx.BASE_SAMPLES) | set('0123456789abcdefABCDEFnrtvxuUN{}')
+    rx._collect_chars(rx.parse(esc.pattern, esc.flags), ealpha)
+    start = enfa.closure([enfa.start])
+    firsts = sorted(c for c in ealpha if enfa.step(start, c))
+    if firsts != ['\\'] or enfa.accept in start:
+        raise Undecided(f'a match of the escape regex can start with {firsts!r}, not only with a backslash')
+    ctx.ok('first-character set of ESCAPE_SEQUENCE_SINGLE_RE is {backslash}: characters outside the table are read back unchanged')
+    ctx.require('\\' in images or table is None, 'the backslash itself is a key of the escape table', pmod, where, "'\\\\' is not in the escape table",
+                'a backslash in a value is printed bare and starts an escape sequence when read back', construct)
+
+    # (2) (3) table images
+    for k, v in sorted(images.items()):
+        key = f'escape_trans[{k!r}] = {v!r}'
+        bad_tok = [p for p, n in nfas.items() if not _nfa_full(n, p + pre + v + post)]
+        ctx.require(not bad_tok, f'{key}: {pre + v + post!r} is in the language of the string and fstring tokens', pmod, 'AstPrinter', key,
+                    f'a string value containing {k!r} is printed as {v!r}: {pre + v + post!r} does not lex as one string token ({tokens[""].pattern!r})', construct)
+        if bad_tok:
+            continue      # the image does not even reach the decoder as one token
+        st = enfa.closure([enfa.start])
+        for ch in v:
+            st = enfa.step(st, ch)
+        one = bool(st) and enfa.accept in st
+        ext = sorted(c for c in ealpha if one and enfa.step(st, c))
+        try:
+            den = codecs.decode(v.encode(), 'unicode_escape')     # folding a constant with the codec decode_match names
+        except Exception as ex:
+            den = f'<{ex.__class__.__name__}>'
+        ctx.require(one and not ext and den == k, f'{key}: the image is exactly one escape sequence denoting {k!r}', pmod, 'AstPrinter', key + ' (decoding)',
+                    f'a string value containing {k!r} is printed as {v!r}, which '
+                    + ('is not one escape sequence of ESCAPE_SEQUENCE_SINGLE_RE (it is read back literally)' if not one
+                       else f'can be extended by a following {ext[0]!r} into a longer escape sequence' if ext
+                       else f'denotes {den!r}'), construct)
+    ctx.floor('escape table entries', len(images), 0)
 
 
 # ---------------------------------------------------------------------------
